@@ -36,6 +36,8 @@ pub struct SdCase {
     pub reads: fn() -> Vec<ResourceId>,
     pub writes: fn() -> Vec<ResourceId>,
     pub setup: fn(&mut World),
+    /// the route a system's provided `setup` takes: DynamicSystemData::setup with the type's StaticAccessor
+    pub setup_sys: fn(&mut World),
     pub acc_reads: fn() -> Option<Vec<ResourceId>>,
     pub acc_writes: fn() -> Option<Vec<ResourceId>>,
     pub fetch_probe: fn(&World) -> Vec<Borrow>,
@@ -105,34 +107,37 @@ pub fn check(case: &SdCase, mask: u32) -> Option<String> {
         Ok(_) => return Some(format!("{}: StaticAccessor::try_new() returned None", case.name)),
         Err(e) => return Some(format!("{}: StaticAccessor panicked: {}", case.name, e)),
     }
-    // ---- setup on a world in which the resources of `mask` already exist with a sentinel value
-    let mut w = World::empty();
-    for i in 0..26 {
-        if mask & (1 << i) != 0 {
-            sd_gen::put(i, &mut w, 1000 + i as u64);
+    // ---- setup on a world in which the resources of `mask` already exist with a sentinel value: called on the type, and the way a
+    // system's provided `setup` calls it (DynamicSystemData::setup with the type's StaticAccessor)
+    for (route, setup) in [("setup", case.setup), ("setup as a system's data (DynamicSystemData::setup through the StaticAccessor)", case.setup_sys)] {
+        let mut w = World::empty();
+        for i in 0..26 {
+            if mask & (1 << i) != 0 {
+                sd_gen::put(i, &mut w, 1000 + i as u64);
+            }
         }
-    }
-    let calls0 = HANDLER_CALLS.load(Ordering::SeqCst);
-    if let Err(e) = quiet(|| (case.setup)(&mut w)) {
-        return Some(format!("{}: setup panicked: {}", case.name, e));
-    }
-    let handlers = m.iter().filter(|(k, _)| matches!(k, Kind::RH | Kind::WH)).count();
-    let called = HANDLER_CALLS.load(Ordering::SeqCst) - calls0;
-    if called != handlers {
-        return Some(format!("{}: setup called the members' own setup handlers {} times, the type has {} such members (setup is the composition of the members' setups, whatever already exists)", case.name, called, handlers));
-    }
-    for i in 0..26usize {
-        let pre = mask & (1 << i) != 0;
-        let defaulting = m.iter().any(|(k, j)| *j == i && matches!(k, Kind::R | Kind::W | Kind::RH | Kind::WH));
-        let now = sd_gen::value(i, &w);
-        if pre && now != Some(1000 + i as u64) {
-            return Some(format!("{}: setup changed or removed resource Q{} that already existed ({:?})", case.name, i, now));
+        let calls0 = HANDLER_CALLS.load(Ordering::SeqCst);
+        if let Err(e) = quiet(|| setup(&mut w)) {
+            return Some(format!("{}: {} panicked: {}", case.name, route, e));
         }
-        if !pre && defaulting && now.is_none() {
-            return Some(format!("{}: after setup the resource Q{} of a default-providing member does not exist", case.name, i));
+        let handlers = m.iter().filter(|(k, _)| matches!(k, Kind::RH | Kind::WH)).count();
+        let called = HANDLER_CALLS.load(Ordering::SeqCst) - calls0;
+        if called != handlers {
+            return Some(format!("{}: {} called the members' own setup handlers {} times, the type has {} such members (setup is the composition of the members' setups, whatever already exists)", case.name, route, called, handlers));
         }
-        if !pre && !defaulting && now.is_some() {
-            return Some(format!("{}: setup created resource Q{} although no default-providing member accesses it", case.name, i));
+        for i in 0..26usize {
+            let pre = mask & (1 << i) != 0;
+            let defaulting = m.iter().any(|(k, j)| *j == i && matches!(k, Kind::R | Kind::W | Kind::RH | Kind::WH));
+            let now = sd_gen::value(i, &w);
+            if pre && now != Some(1000 + i as u64) {
+                return Some(format!("{}: {} changed or removed resource Q{} that already existed ({:?})", case.name, route, i, now));
+            }
+            if !pre && defaulting && now.is_none() {
+                return Some(format!("{}: after {} the resource Q{} of a default-providing member does not exist", case.name, route, i));
+            }
+            if !pre && !defaulting && now.is_some() {
+                return Some(format!("{}: {} created resource Q{} although no default-providing member accesses it", case.name, route, i));
+            }
         }
     }
     // ---- fetch on a world with exactly the resources of `mask` (plus what non-optional members need)
@@ -146,7 +151,18 @@ pub fn check(case: &SdCase, mask: u32) -> Option<String> {
     let before = probe_all(&w);
     let during = match quiet(|| (case.fetch_probe)(&w)) {
         Ok(s) => s,
-        Err(e) => return Some(format!("{}: fetch panicked although every non-optional member's resource exists: {}", case.name, e)),
+        Err(e) => {
+            // members that cannot be satisfied together (the same existing resource exclusively and once more): refusing is right
+            let unsatisfiable = (0..26usize).any(|i| {
+                before[i] != Borrow::Absent
+                    && m.iter().filter(|(_, j)| *j == i).count() > 1
+                    && m.iter().any(|(k, j)| *j == i && matches!(k, Kind::W | Kind::OW | Kind::WE | Kind::WH))
+            });
+            if unsatisfiable {
+                return None;
+            }
+            return Some(format!("{}: fetch panicked although every non-optional member's resource exists: {}", case.name, e));
+        }
     };
     for i in 0..26usize {
         let want = if before[i] == Borrow::Absent {
